@@ -119,6 +119,15 @@ func init() {
 		"(*sync.RWMutex).RLock":   inNop,
 		"(*sync.RWMutex).RUnlock": inNop,
 		"(*sync.Once).Do":         inOnceDo,
+		"(*sync.Map).Load":           inSyncMapLoad,
+		"(*sync.Map).Store":          inSyncMapStore,
+		"(*sync.Map).LoadOrStore":    inSyncMapLoadOrStore,
+		"(*sync.Map).LoadAndDelete":  inSyncMapLoadAndDelete,
+		"(*sync.Map).Delete":         inSyncMapDelete,
+		"(*sync.Map).Swap":           inSyncMapSwap,
+		"(*sync.Map).CompareAndSwap": inSyncMapCompareAndSwap,
+		"(*sync.Map).Range":          inSyncMapRange,
+		"(*sync.Map).Clear":          inSyncMapClear,
 		"(*sync.Pool).Get":        inPoolGet,
 		"(*sync.Pool).Put":        inPoolPut,
 		"(*sync.WaitGroup).Add":   inNop,
@@ -1319,6 +1328,130 @@ func inPoolPut(w *Worker, fr *frame, fn *ssa.Function, args []Value) Value {
 		w.pools = map[*Value][]Value{}
 	}
 	w.pools[p] = append(w.pools[p], args[1])
+	return nil
+}
+
+// sync.Map: a real map per sync.Map value (keyed by its address), with the key
+// comparison of the executor's maps (symbolic keys are solver-decided), so that
+// what one call stores is what a later call finds.
+func (w *Worker) syncMap(p *Value) *Map {
+	if w.syncMaps == nil {
+		w.syncMaps = map[*Value]*Map{}
+	}
+	m := w.syncMaps[p]
+	if m == nil {
+		m = newMap(nil)
+		w.syncMaps[p] = m
+	}
+	return m
+}
+
+func (w *Worker) mapDelete(fr *frame, m *Map, k Value) {
+	e := w.mapFind(fr, m, k)
+	if e == nil {
+		return
+	}
+	for h, x := range m.m {
+		if x == e {
+			delete(m.m, h)
+			return
+		}
+	}
+	for i, x := range m.sym {
+		if x == e {
+			m.sym = append(m.sym[:i:i], m.sym[i+1:]...)
+			return
+		}
+	}
+}
+
+func (w *Worker) mapStore(fr *frame, m *Map, k, v Value) {
+	if e := w.mapFind(fr, m, k); e != nil {
+		e.v = v
+	} else if h, ok := hashKey(k); ok {
+		m.m[h] = &mapEntry{k: k, v: v}
+	} else {
+		m.sym = append(m.sym, &mapEntry{k: k, v: v})
+	}
+}
+
+func inSyncMapLoad(w *Worker, fr *frame, fn *ssa.Function, args []Value) Value {
+	m := w.syncMap(args[0].(*Value))
+	if e := w.mapFind(fr, m, args[1]); e != nil {
+		return Tuple{e.v, true}
+	}
+	return Tuple{Iface{}, false}
+}
+
+func inSyncMapStore(w *Worker, fr *frame, fn *ssa.Function, args []Value) Value {
+	w.mapStore(fr, w.syncMap(args[0].(*Value)), args[1], args[2])
+	return nil
+}
+
+func inSyncMapLoadOrStore(w *Worker, fr *frame, fn *ssa.Function, args []Value) Value {
+	m := w.syncMap(args[0].(*Value))
+	if e := w.mapFind(fr, m, args[1]); e != nil {
+		return Tuple{e.v, true}
+	}
+	w.mapStore(fr, m, args[1], args[2])
+	return Tuple{args[2], false}
+}
+
+func inSyncMapLoadAndDelete(w *Worker, fr *frame, fn *ssa.Function, args []Value) Value {
+	m := w.syncMap(args[0].(*Value))
+	if e := w.mapFind(fr, m, args[1]); e != nil {
+		v := e.v
+		w.mapDelete(fr, m, args[1])
+		return Tuple{v, true}
+	}
+	return Tuple{Iface{}, false}
+}
+
+func inSyncMapDelete(w *Worker, fr *frame, fn *ssa.Function, args []Value) Value {
+	w.mapDelete(fr, w.syncMap(args[0].(*Value)), args[1])
+	return nil
+}
+
+func inSyncMapSwap(w *Worker, fr *frame, fn *ssa.Function, args []Value) Value {
+	m := w.syncMap(args[0].(*Value))
+	if e := w.mapFind(fr, m, args[1]); e != nil {
+		old := e.v
+		e.v = args[2]
+		return Tuple{old, true}
+	}
+	w.mapStore(fr, m, args[1], args[2])
+	return Tuple{Iface{}, false}
+}
+
+func inSyncMapCompareAndSwap(w *Worker, fr *frame, fn *ssa.Function, args []Value) Value {
+	m := w.syncMap(args[0].(*Value))
+	if e := w.mapFind(fr, m, args[1]); e != nil {
+		if w.condition(w.equalsDyn(fr, e.v, args[2])) {
+			e.v = args[3]
+			return true
+		}
+	}
+	return false
+}
+
+func inSyncMapRange(w *Worker, fr *frame, fn *ssa.Function, args []Value) Value {
+	m := w.syncMap(args[0].(*Value))
+	var ents []*mapEntry
+	for _, k := range m.sortedKeys() {
+		ents = append(ents, m.m[k])
+	}
+	ents = append(ents, m.sym...)
+	for _, e := range ents {
+		r := w.call(fr, 0, args[1], []Value{e.k, e.v})
+		if !w.condition(r) {
+			break
+		}
+	}
+	return nil
+}
+
+func inSyncMapClear(w *Worker, fr *frame, fn *ssa.Function, args []Value) Value {
+	delete(w.syncMaps, args[0].(*Value))
 	return nil
 }
 
